@@ -36,7 +36,7 @@ CFG = {
             "`oncl` (a third of the cases with effects) = every effect run registers one on_cleanup; observable ` cl=` = cleanup calls per effect and op, oracle = "
             "exactly one call per superseded run and per disposal, none twice; effect constructors now include RenderEffect::new_isomorphic (`rieff`) and "
             "Effect::watch_sync; `imm` (an eighth) = ImmediateEffect::new (runs at creation and inside notifications, no task; must converge, run once per change and "
-            "never hang - the per-line watchdog prints `hang`); diamonds whose top memo reads the cut-off branch before the shared memo; `slice`, `mapped`, `maybe`, `dropped` as in C01",
+            "never hang - the per-line watchdog prints `hang`); diamonds whose top memo reads the cut-off branch before the shared memo; `slice`, `mapped`, `maybe`, `dropped`, `scope`, `disposew` as in C01",
     "trusted": ["hx_common::sched controlled executor standing in for any executor (tasks polled one at a time on one thread)",
                 "lean/LeptosModel/Model/ReactiveDriver.lean desugars `sel K e` into K flag signals + one render effect (no model change); `woke=` lists the wake-ups "
                 "made by one selector run sorted (the code walks a hash map of keys), `eruns=` shows a selector run's source reads once"],
